@@ -426,6 +426,19 @@ static void c15(long long seedv) {
       if (!ZonedDateTime::forDateString(p.c_str()).isError()) { J j; j.str("text", p); witness("c15:zdt-short-not-error", "too-short ZonedDateTime string did not parse to error", j); }
       if (n < 19 && !LocalDateTime::forDateString(p.c_str()).isError()) { J j; j.str("text", p); witness("c15:ldt-short-not-error", "too-short LocalDateTime string did not parse to error", j); }
       if (n < 10 && !LocalDate::forDateString(p.c_str()).isError()) { J j; j.str("text", p); witness("c15:ld-short-not-error", "too-short LocalDate string did not parse to error", j); }
+      // the flash-string (F()) overloads go through their own copy-and-check code
+      const __FlashStringHelper* fp = reinterpret_cast<const __FlashStringHelper*>(p.c_str());
+      CNT.add("c15.short_flash_strings");
+      if (!OffsetDateTime::forDateString(fp).isError()) { J j; j.str("text", p); witness("c15:odt-short-flash-not-error", "too-short OffsetDateTime F() string did not parse to error", j); }
+      if (!ZonedDateTime::forDateString(fp).isError()) { J j; j.str("text", p); witness("c15:zdt-short-flash-not-error", "too-short ZonedDateTime F() string did not parse to error", j); }
+      if (n < 19 && !LocalDateTime::forDateString(fp).isError()) { J j; j.str("text", p); witness("c15:ldt-short-flash-not-error", "too-short LocalDateTime F() string did not parse to error", j); }
+    }
+    // full-length strings through the F() overloads give the same values as through the const char* ones; over-long ones are errors
+    {
+      const char* f19 = "2019-05-20T12:34:56"; const char* f25 = "2019-05-20T12:34:56-07:30";
+      if (LocalDateTime::forDateString(reinterpret_cast<const __FlashStringHelper*>(f19)) != LocalDateTime::forDateString(f19) || LocalDateTime::forDateString(f19).isError()) { J j; witness("c15:ldt-flash-differs", "LocalDateTime F() overload differs from the const char* overload", j); }
+      if (OffsetDateTime::forDateString(reinterpret_cast<const __FlashStringHelper*>(f25)) != OffsetDateTime::forDateString(f25) || OffsetDateTime::forDateString(f25).isError()) { J j; witness("c15:odt-flash-differs", "OffsetDateTime F() overload differs from the const char* overload", j); }
+      if (!LocalDateTime::forDateString(reinterpret_cast<const __FlashStringHelper*>("2019-05-20T12:34:56-07:30[America/Los_Angeles]x")).isError()) CNT.add("c15.info_ldt_flash_accepts_overlong");
     }
     std::string t = "12:34:56";
     for (size_t n = 0; n < t.size(); n++) { CNT.add("c15.short_strings"); if (!LocalTime::forTimeString(t.substr(0, n).c_str()).isError()) { J j; j.str("text", t.substr(0, n)); witness("c15:lt-short-not-error", "too-short LocalTime string did not parse to error", j); } }
